@@ -1,5 +1,6 @@
 import Hls.Muxer.TimeTs
 import Hls.Muxer.TimeText
+import Hls.Muxer.TimeProv
 /-!
 # C03 — Playlist durations, target durations and date-times match the media
 
@@ -303,6 +304,23 @@ theorem c03_pdt_ts {cfg : Cfg} {st0 : State} (h0 : start cfg = .ok st0) (hv : cf
       · cases h
       · exact absurd h3.1 h
 
+/-- **MPEG-TS, step-free: every segment's start DTS and PROGRAM-DATE-TIME are those of one written unit.**  In every
+reachable state of an MPEG-TS muxer — for ANY results of the calls; the writes name tracks of the muxer — every listed
+segment and the open segment has `(startDTS, startNTP) = (tsStamp op, op.ntp)` for one write `op` of the run, where
+`tsStamp` is `toDur dts` of a video unit / `toDur pts` of an audio unit in the track's clock rate.  (`c03_pdt_ts`
+identifies the unit: it is the one whose write opened the segment.) -/
+theorem c03_pdt_ts_run {cfg : Cfg} {st0 : State} (h0 : start cfg = .ok st0) (hv : cfg.variant = .mpegts)
+    (ops : List WriteOp) (hin : Accept.InRange cfg ops = true) :
+    (∀ g ∈ listed (run st0 ops) 0, ∃ op ∈ ops, g.startDTS = tsStamp st0 op ∧ g.startNTP = op.ntp) ∧
+    (∀ o, ((run st0 ops).stream 0).nextSegment = some o → ∃ op ∈ ops, o.startDTS = tsStamp st0 op ∧ o.startNTP = op.ntp) := by
+  have hp := reach_Prov_ts h0 hv ops hin
+  have key : ∀ a b : Int, (a, b) ∈ tsPairs st0 ops → ∃ op ∈ ops, a = tsStamp st0 op ∧ b = op.ntp := by
+    intro a b hm
+    simp only [tsPairs, List.mem_map, Prod.mk.injEq] at hm
+    obtain ⟨op, hop, e1, e2⟩ := hm
+    exact ⟨op, hop, e1.symm, e2.symm⟩
+  exact ⟨fun g hg => key _ _ (hp.1 g hg), fun o ho => key _ _ (hp.2 o ho)⟩
+
 /-! ## Non-vacuity: a concrete Low-Latency muxer (H264 + AAC), rotations, a parameter change -/
 
 def exCfg : Cfg :=
@@ -347,7 +365,9 @@ example : ((run tsSt0 [vop 0 true 1, vop 1 false 0]).tcfg 0).codec = .h264 ∧
     Accepted (run tsSt0 [vop 0 true 1, vop 1 false 0]) (vop 2 true 0) ∧
     (write (run tsSt0 [vop 0 true 1, vop 1 false 0]) (vop 2 true 0)).2 = .ok ∧
     ((write (run tsSt0 [vop 0 true 1, vop 1 false 0]) (vop 2 true 0)).1.stream 0).nextSegmentID ≠
-      ((run tsSt0 [vop 0 true 1, vop 1 false 0]).stream 0).nextSegmentID := by decide
+      ((run tsSt0 [vop 0 true 1, vop 1 false 0]).stream 0).nextSegmentID ∧
+    Accept.InRange tsCfg [vop 0 true 1, vop 1 false 0, vop 2 true 0] = true ∧
+    (listed (run tsSt0 [vop 0 true 1, vop 1 false 0, vop 2 true 0]) 0).length = 1 := by decide
 
 /-- F26's window is inhabited and the theorem's other side too: 1.499999999 s reads `1.50000` (rounds to 2, while
 `roundSeconds` is 1); 1.499994999 s reads `1.49999` (rounds to 1) -/
